@@ -63,8 +63,12 @@ def _wrun(task):
         if fn:
             res = getattr(_MOD, fn)(task, _SEED)
         else:
-            system = _MOD.SYSTEMS[task["system"]]
+            from mc import pairs
+
+            system = pairs.resolve(_MOD, task["system"])
             res = explorer.explore(system, task, _SEED, _PROP, deadline=_DEADLINE)
+            if task.get("pair"):
+                res["stats"] = pairs.rename_stats(res["stats"])
         res["task"] = task.get("label", task.get("system"))
         return res
     except explorer.HarnessError as e:
@@ -104,6 +108,9 @@ def main(argv=None):
 
     t0 = time.time()
     tasks = mod.tasks(tier, seed)
+    from mc import pairs
+
+    tasks = tasks + pairs.derive(mod, tasks, tier)
     if a.only:
         tasks = [t for t in tasks if a.only in t.get("label", t.get("system", ""))]
     tasks.sort(key=lambda t: -t.get("cost", 1))
